@@ -92,6 +92,7 @@ TARGETS = [
     dict(name="normalized_string_from_string", file="src/normalized_string.rs", fn="from_string", kind="function", ret="nstr_view + ns_error", opt_calls={"Self::new": ("tr_normalized_string_new", "res")}),
     dict(name="normalized_string_try_from_str", file="src/normalized_string.rs", fn="try_from", nth=0, kind="function", ret="nstr_view + ns_error", opt_calls={"Self::new": ("tr_normalized_string_new", "res")}),
     dict(name="normalized_string_try_from_string", file="src/normalized_string.rs", fn="try_from", nth=1, kind="function", ret="nstr_view + ns_error", opt_calls={"Self::new": ("tr_normalized_string_new", "res")}),
+    dict(name="matrix_generate_coordinates", file="src/matrix_card.rs", fn="generate_coordinates", kind="function", ret=("arr", "u8")),
     dict(name="pin_remap_pin_grid", file="src/pin.rs", fn="remap_pin_grid", kind="function", ret=("arr", "u8"),
          consts={"MAX_PIN_LENGTH": ("max_pin_length", "u8")}),
     dict(name="pin_to_bytes", file="src/pin.rs", fn="pin_to_bytes", kind="function", ret=("arr", "u8"),
